@@ -21,9 +21,7 @@ func propC17(a *Analysis, r *Registry) {
 	X := b.X
 	S := X.S
 	const rB = "B-C17 formula"
-	for _, n := range []string{"scale.(Linear).TicksAtLevel", "scale.(*Log).TicksAtLevel", "scale.(logTicker).TicksAtLevel"} {
-		X.NoInline[n] = true // kept as applications: Ticks' obligations are stated on the level argument
-	}
+	X.NoInline["scale.(logTicker).TicksAtLevel"] = true // kept as an application (its own clauses are decided below)
 	linLets := [][2]string{
 		{"eb", "ite(s.Base==0, 10, s.Base)"},
 		{"sp0", "pow(eb, floor(level/2))"},
@@ -165,18 +163,16 @@ func propC17(a *Analysis, r *Registry) {
 			call := fc.TheCallTo("scale.(*TickOptions).FindLevel")
 			lvl, okv := tupleOf(fc, call, 0), tupleOf(fc, call, 1)
 			fc2 := X.Under(fn, X.AssumeCond(env.MustParse("o.Max<=0"), false), X.AssumeCond(env.MustParse("s.Min==s.Max"), false), X.AssumeEq(okv, S.True()))
-			maj, mnr := fc2.Sub(fc2.RetVal(0)).SingleAtom(), fc2.Sub(fc2.RetVal(1)).SingleAtom()
-			if maj == nil || mnr == nil || len(maj.Args) < 2 || len(mnr.Args) < 2 {
-				r.Fail(rB, name+"/levels", b.pos(fn), "major/minor are not TicksAtLevel results")
-				return
-			}
+			// major and minor are the ticks of the ticker handed to FindLevel, at the level found and one below
 			e := X.EnvFor(fn, "s", "o")
 			e.Set("level", lvl, nil)
-			b.Eq(rB, name+"/major-level", b.pos(fn), maj.Args[len(maj.Args)-1], e, "level")
-			b.Eq(rB, name+"/minor-level", b.pos(fn), mnr.Args[len(mnr.Args)-1], e, "level-1")
-			if maj.Name != mnr.Name || !maj.Args[0].Equal(mnr.Args[0]) {
-				r.Fail(rB, name+"/same-ticker", b.pos(fn), "major and minor ticks come from different tickers")
+			tkv := call.Call.Args[1]
+			if mi, isMI := tkv.(*ssa.MakeInterface); isMI {
+				tkv = mi.X // the concrete ticker
 			}
+			e.Set("ticker", fc.Val(tkv), tkv.Type())
+			b.EqUnder(rB, name+"/major-level", b.pos(fn), fc2, fc2.RetVal(0), e, "ticker.TicksAtLevel(level)")
+			b.EqUnder(rB, name+"/minor-level", b.pos(fn), fc2, fc2.RetVal(1), e, "ticker.TicksAtLevel(level-1)")
 			// failure → nil,nil
 			fc3 := X.Under(fn, X.AssumeCond(env.MustParse("o.Max<=0"), false), X.AssumeCond(env.MustParse("s.Min==s.Max"), false), X.AssumeEq(okv, S.False()))
 			b.EqRF(rB, name+"/no-level→nil", b.pos(fn), fc3.Sub(fc3.RetVal(0)), S.Var("nil", false), "no ticks when no level fits")
